@@ -10,6 +10,7 @@ Theorems over `Model/Determinism.lean` (see there for the Rust ↔ Lean map):
 -/
 import FontVerif.Model.Determinism
 import FontVerif.Lemmas.Determinism
+import FontVerif.Lemmas.DeterminismEquiv
 import FontVerif.Gen.Sites
 set_option linter.unusedVariables false
 set_option linter.unusedSimpArgs false
@@ -288,7 +289,110 @@ theorem indexmap_insert_keeps_order {κ α : Type} [DecidableEq κ] (f : Option 
 
 example : IndexMap.countAll [3, 1, 3, 2, 1, 3] = [(3, 3), (1, 2), (2, 1)] := by decide
 
-/-! ## 3. the site inventory -/
+/-! ## 3. equivariance of the id-consuming functions, and the end-to-end statement -/
+
+/-- **pack_equivariant**: `Graph::from_obj_store`, `sort_kahn` (BinaryHeap tie-break on `ObjectId`) and `serialize`
+    commute with every renaming `ρ` of object ids that is strictly monotone on the ids in use (`U`): the write order
+    is the renamed write order, and the bytes — which contain offsets, never ids — are equal. -/
+theorem pack_equivariant (ρ : Nat → Nat) (U : Nat → Prop) (h : MonoOnP ρ U) (es : List (Obj × Nat)) (root : Nat)
+    (hes : ∀ e ∈ es, U e.2 ∧ ∀ l ∈ e.1.links, U l.target) (hr : U root) :
+    fromObjStore (renameEntries ρ es) = renameMap ρ (fromObjStore es) ∧
+    sortKahn (fromObjStore (renameEntries ρ es)) (ρ root) = (sortKahn (fromObjStore es) root).map ρ ∧
+    packSimple (fromObjStore (renameEntries ρ es)) (ρ root) = packSimple (fromObjStore es) root := by
+  have hc := fromObjStore_closed U es hes
+  have e1 := fromObjStore_rename h es (fun e he => (hes e he).1)
+  refine ⟨e1, ?_, ?_⟩
+  · rw [e1]; exact sortKahn_rename h _ hc root hr
+  · unfold packSimple
+    rw [e1, sortKahn_rename h _ hc root hr]
+    exact serialize_rename h _ hc _ (sortKahn_closed h _ hc root hr)
+
+private theorem getD_mem (ids : List Nat) (i : Nat) (hi : i < ids.length) : ids.getD i 0 ∈ ids := by
+  simp only [List.getD_eq_getElem?_getD, List.getElem?_eq_getElem hi, Option.getD_some]; exact List.getElem_mem hi
+
+private theorem getD_map (ρ : Nat → Nat) (ids : List Nat) (i : Nat) (hi : i < ids.length) :
+    (ids.map ρ).getD i 0 = ρ (ids.getD i 0) := by
+  simp [List.getD_eq_getElem?_getD, List.getElem?_map, List.getElem?_eq_getElem hi]
+
+private theorem instantiate_map (ρ : Nat → Nat) (tmpl : List Obj) (ids : List Nat)
+    (hl : ∀ o ∈ tmpl, ∀ l ∈ o.links, l.target < ids.length) :
+    instantiate tmpl (ids.map ρ) = renameEntries ρ (instantiate tmpl ids) := by
+  unfold instantiate renameEntries
+  rw [List.zip_map_right, List.map_map, List.map_map]
+  apply List.map_congr_left
+  intro p hp
+  have hp1 := (List.of_mem_zip hp).1
+  simp only [Function.comp, Obj.rename, List.map_map, Prod.map]
+  congr 2
+  apply List.map_congr_left
+  intro l hlm
+  simp only [Function.comp, Link.rename, getD_map ρ ids l.target (hl p.1 hp1 l hlm)]
+
+private theorem instantiate_ids (tmpl : List Obj) (ids : List Nat) (hlen : ids.length = tmpl.length) :
+    (instantiate tmpl ids).map (·.2) = ids := by
+  unfold instantiate
+  rw [List.map_map]
+  have : ((fun x : Obj × Nat => x.2) ∘ fun p : Obj × Nat =>
+      (({ bytes := p.1.bytes, links := p.1.links.map (fun l => { l with target := ids.getD l.target 0 }) } : Obj), p.2)) =
+      (fun p => p.2) := rfl
+  rw [this]
+  exact List.map_snd_zip (by omega)
+
+/-- **bytes_independent_of_schedule_history_and_hash_order** — the end-to-end statement for the modelled slice
+    (`TableWriter` store → `from_obj_store` → `sort_kahn` → `serialize`).  Fix the VALUE being compiled (`tmpl`:
+    its distinct tables in first-insertion order with links by index, and the index of the root).  Take two
+    arbitrary executions: any starting value of the global counter (history), any interleaving with any other
+    threads' `ObjectId::next` calls (`sched`, `sched'`), any thread, and any iteration order of the
+    `HashMap<TableData, ObjectId>` (`es`, `es'` are arbitrary permutations of the store contents).  The bytes are
+    the same. -/
+theorem bytes_independent_of_schedule_history_and_hash_order
+    (tmpl : List Obj) (rootIdx : Nat)
+    (hlinks : ∀ o ∈ tmpl, ∀ l ∈ o.links, l.target < tmpl.length) (hroot : rootIdx < tmpl.length)
+    (c c' : Nat) (sched sched' : List Nat) (t t' : Nat)
+    (hb : c + sched.length ≤ U64) (hb' : c' + sched'.length ≤ U64)
+    (hn : sched.count t = tmpl.length) (hn' : sched'.count t' = tmpl.length)
+    (es es' : List (Obj × Nat))
+    (hp : es.Perm (instantiate tmpl (idsOf t (runSched c sched))))
+    (hp' : es'.Perm (instantiate tmpl (idsOf t' (runSched c' sched')))) :
+    packSimple (fromObjStore es) ((idsOf t (runSched c sched)).getD rootIdx 0) =
+      packSimple (fromObjStore es') ((idsOf t' (runSched c' sched')).getD rootIdx 0) := by
+  generalize hids : idsOf t (runSched c sched) = ids at *
+  generalize hids' : idsOf t' (runSched c' sched') = ids' at *
+  have hlen : ids.length = tmpl.length := by rw [← hids, ids_length, hn]
+  have hlen' : ids'.length = tmpl.length := by rw [← hids', ids_length, hn']
+  have hsorted : ids.Pairwise (· < ·) := by rw [← hids]; exact schedule_monotone c sched t hb
+  have hsorted' : ids'.Pairwise (· < ·) := by rw [← hids']; exact schedule_monotone c' sched' t' hb'
+  obtain ⟨ρ, hmono, hmap⟩ := monotone_renaming_exists ids ids' hsorted hsorted' (by omega)
+  have hnodup : ∀ l : List Nat, l.Pairwise (· < ·) → l.Nodup := by
+    intro l hl; exact hl.imp (fun h => Nat.ne_of_lt h)
+  -- the hash order does not matter
+  rw [store_perm_invariant es _ hp (by rw [hp.map (·.2) |>.nodup_iff, instantiate_ids tmpl ids hlen]; exact hnodup _ hsorted),
+    store_perm_invariant es' _ hp' (by rw [hp'.map (·.2) |>.nodup_iff, instantiate_ids tmpl ids' hlen']; exact hnodup _ hsorted')]
+  -- the second run is the first one renamed
+  have hl : ∀ o ∈ tmpl, ∀ l ∈ o.links, l.target < ids.length := by rw [hlen]; exact hlinks
+  rw [← hmap, instantiate_map ρ tmpl ids hl, getD_map ρ ids rootIdx (by omega)]
+  have hU : MonoOnP ρ (· ∈ ids) := fun a b ha hb hab => hmono a ha b hb hab
+  refine ((pack_equivariant ρ (· ∈ ids) hU (instantiate tmpl ids) (ids.getD rootIdx 0) ?_ (getD_mem ids rootIdx (by omega))).2.2).symm
+  intro e he
+  unfold instantiate at he
+  simp only [List.mem_map] at he
+  obtain ⟨p, hpz, rfl⟩ := he
+  refine ⟨(List.of_mem_zip hpz).2, ?_⟩
+  intro l hlm
+  simp only [List.mem_map] at hlm
+  obtain ⟨l0, hl0, rfl⟩ := hlm
+  exact getD_mem ids l0.target (hl p.1 (List.of_mem_zip hpz).1 l0 hl0)
+
+-- non-vacuity: a root with two children, one shared grandchild; two different executions and hash orders
+example :
+    let tmpl : List Obj := [⟨[255, 255, 255, 255, 1], [⟨0, 2, 1, 0⟩, ⟨2, 2, 2, 0⟩]⟩, ⟨[255, 255, 7], [⟨0, 2, 3, 0⟩]⟩,
+      ⟨[255, 255, 8, 8], [⟨0, 2, 3, 0⟩]⟩, ⟨[9], []⟩]
+    packSimple (fromObjStore (instantiate tmpl (idsOf 0 (runSched 0 [0, 0, 0, 0])))) 0 =
+      [0, 5, 0, 8, 1, 0, 7, 7, 0, 4, 8, 8, 9] ∧
+    packSimple (fromObjStore (instantiate tmpl (idsOf 5 (runSched 1000 [5, 2, 2, 5, 5, 2, 5]))).reverse) 1000 =
+      [0, 5, 0, 8, 1, 0, 7, 7, 0, 4, 8, 8, 9] := by decide
+
+/-! ## 4. the site inventory -/
 
 /-- Every inventoried hash-container iteration, hash-typed declaration and use of process-global state
     (`translate/sites.py`, regenerated from the Rust sources on every run) is classified into a class whose lemma is
